@@ -46,6 +46,32 @@ def loop_item_local(nv, lp):
     return res
 
 
+def bit_test(t, truth):
+    """A condition that tests one bit of a word, however it is spelt:  `w & (1 << s) != 0`,  `(w >> s) & 1 == 1`,
+    `(w >> s) & 1 != 0`, and their negations.  Returns (normed word term, shift term, bit is set on this arm)."""
+    def sc(x):
+        while x[0] == "cast":
+            x = x[1]
+        if x[0] == "field" and x[3] == 0 and x[1][0] == "bin" and x[1][1].endswith("WithOverflow"):
+            x = ("bin", x[1][1].replace("WithOverflow", ""), x[1][2], x[1][3])
+        return x
+    t = sc(t)
+    if not (t[0] == "bin" and t[1] in ("Ne", "Eq") and t[3][0] == "const" and isinstance(t[3][1], int)):
+        return None
+    k = t[3][1]
+    e = sc(t[2])
+    if not (e[0] == "bin" and e[1] == "BitAnd"):
+        return None
+    for a, b in ((e[2], e[3]), (e[3], e[2])):
+        b0, a0 = sc(b), sc(a)
+        if b0[0] == "bin" and b0[1] == "Shl" and b0[2][0] == "const" and b0[2][1] == 1 and k == 0:
+            return (norm(a0), b0[3], ((t[1] == "Ne") == truth))
+        if b0[0] == "const" and b0[1] == 1 and a0[0] == "bin" and a0[1] == "Shr" and k in (0, 1):
+            nonzero = (t[1] == "Ne") if k == 0 else (t[1] == "Eq")
+            return (norm(a0[2]), a0[3], (nonzero == truth))
+    return None
+
+
 def run(facts, rep, ctx):
     R1 = rep.rule("R17.1", "dual structure: label constant, loop bounds, bit test/set, slot index map, one slot per bit, group/main-bit coupling, string/bit coupling", floor=11)
     R2 = rep.rule("R17.2", "space accounting: 4 bytes per emitted word per set; 12-byte header; 4 bytes per clip-table entry", floor=3)
@@ -81,7 +107,8 @@ def run(facts, rep, ctx):
     rb = sorted((hi for lp, lo, hi, tk in rloops if hi is not None and lo == 0))
     wb = sorted((hi for lp, lo, hi, tk in wloops if hi is not None and lo == 0))
     takes = [tk for lp, lo, hi, tk in wloops if tk is not None]
-    if rb == [8, 32, 32, 257]:
+    has_resize32 = any((callee_names(t)[1] or "").endswith("Vec::<T, A>::resize") and (affine(rd.term_of_operand(t["args"][1]), None) or (None, None))[1] == 32 for bb, t in rd.calls() if len(t["args"]) == 3)
+    if rb == [8, 32, 32, 257] or (rb == [8, 32, 257] and has_resize32):
         rep.ok(R1, {"reader_loops": rb})
     elif len(rb) != 4:
         # e.g. the 32 absent slots produced by `resize` instead of a loop: a different shape, not a different bound
@@ -143,6 +170,7 @@ def run(facts, rep, ctx):
         rep.inconc(R1, "reader: too many paths")
         return
     per_bit = {}
+    resize_absent = []
     bit_tests = set()
     main_tests = set()
     for p in rpaths:
@@ -164,6 +192,23 @@ def run(facts, rep, ctx):
         if last_next is None:
             continue
         rng = [x for x in walk(last_next["args"][0]) if x[0] == "agg" and x[2] and x[2].endswith("ops::Range")]
+        if rng and rng[0][4][1][:2] == ("const", 8):
+            # an iteration of the group loop that fills the 32 slots of an absent group in one go:
+            # set.resize(set.len() + 32, None)
+            for e in p.events:
+                if e["k"] == "call" and e["callee"] and e["callee"].endswith("Vec::<T, A>::resize") and len(e["args"]) == 3 and e.get("bb", -1) >= 0:
+                    af = affine(e["args"][1], None)
+                    v = e["args"][2]
+                    is_none = v[0] == "agg" and v[3] == "None"
+                    if af and len(af[0]) == 1 and list(af[0].values()) == [1] and list(af[0])[0][0] == "call" and list(af[0])[0][1].endswith("::len"):
+                        grow = af[1]
+                        mkey = []
+                        for (bb, term, vals, neg, dty) in p.conds:
+                            ct = cond_truth((term, vals, neg, dty))
+                            bt = bit_test(ct[0], ct[1]) if ct else None
+                            if bt:
+                                mkey.append(bt[2])
+                        resize_absent.append((grow, is_none, mkey))
         if not rng or rng[0][4][1][1] != 32:
             continue
         # only iterations that actually ran (next() returned Some)
@@ -177,32 +222,25 @@ def run(facts, rep, ctx):
         key = []
         for (bb, term, vals, neg, dty) in p.conds:
             ct = cond_truth((term, vals, neg, dty))
-            if ct and ct[0][0] == "bin" and ct[0][1] == "Ne" and ct[0][2][0] == "bin" and ct[0][2][1] == "BitAnd":
-                ba = ct[0][2]
-                sh = ba[3] if ba[3][0] != "const" else ba[2]
-                who = "flags"
-                src = ba[2]
-                shv = None
-                for x in walk(sh):
-                    if x[0] == "bin" and x[1] == "Shl" and x[2][0] == "const" and x[2][1] == 1:
-                        shv = x[3]
-                direct = None
-                if shv is not None:
-                    z = shv
-                    while z[0] in ("cast", "ref", "deref"):
-                        z = z[1]
-                    direct = "item:next" if (z[0] == "field" and z[1][0] == "downcast" and z[1][1][0] == "call" and z[1][1][1].endswith("::next")) else None
-                    if direct is None:
-                        # an affine function of a loop counter other than the counter itself is a different bit
-                        af = affine(z, None)
-                        if af and len(af[0]) == 1:
-                            (atom, coef), = af[0].items()
-                            a0 = atom
-                            while a0[0] in ("cast", "ref", "deref"):
-                                a0 = a0[1]
-                            if a0[0] == "field" and a0[1][0] == "downcast" and a0[1][1][0] == "call" and a0[1][1][1].endswith("::next") and (coef, af[1]) != (1, 0):
-                                direct = "wrong:%d*counter%+d" % (coef, af[1])
-                key.append((fmt(norm(src))[:40], direct, ct[1]))
+            bt = bit_test(ct[0], ct[1]) if ct else None
+            if bt is None:
+                continue
+            src, shv, is_set = bt
+            z = shv
+            while z[0] in ("cast", "ref", "deref"):
+                z = z[1]
+            direct = "item:next" if (z[0] == "field" and z[1][0] == "downcast" and z[1][1][0] == "call" and z[1][1][1].endswith("::next")) else None
+            if direct is None:
+                # an affine function of a loop counter other than the counter itself is a different bit
+                af = affine(z, None)
+                if af and len(af[0]) == 1:
+                    (atom, coef), = af[0].items()
+                    a0 = atom
+                    while a0[0] in ("cast", "ref", "deref"):
+                        a0 = a0[1]
+                    if a0[0] == "field" and a0[1][0] == "downcast" and a0[1][1][0] == "call" and a0[1][1][1].endswith("::next") and (coef, af[1]) != (1, 0):
+                        direct = "wrong:%d*counter%+d" % (coef, af[1])
+            key.append((fmt(src)[:40], direct, is_set))
         per_bit.setdefault(tuple(key), []).append((pushes_after, kinds))
     good = bool(per_bit)
     desc = []
@@ -225,9 +263,15 @@ def run(facts, rep, ctx):
             if key and key[-1][2] is False and kinds != ["none"]:
                 good = False
                 desc.append("bit clear but pushes %s" % kinds)
+    for grow, is_none, mkey in resize_absent:
+        if grow != 32 or not is_none:
+            desc.append("an absent group is filled with %s slot(s)%s (specified: 32 absent slots)" % (grow, "" if is_none else " that are not None"))
+        elif mkey and mkey[-1] is True:
+            desc.append("32 absent slots are appended when the group's main bit is set")
+    absent_by_resize = any(grow == 32 and is_none and mkey and mkey[-1] is False for grow, is_none, mkey in resize_absent)
     if desc:
         rep.violation(R1, rd.name, "one-slot-per-bit", "reader slot accounting: %s" % desc, rw)
-    elif good and len(per_bit) >= 3 and not unk:
+    elif good and (len(per_bit) >= 3 or (len(per_bit) >= 2 and absent_by_resize)) and not unk:
         rep.ok(R1, {"reader": "exactly one slot per bit: string if set, absent if clear, 32 absent for a missing group", "branches": len(per_bit)})
     else:
         rep.inconc(R1, "reader slot accounting: %s" % (unk[0] if unk else "branches not recognised (%d)" % len(per_bit)))
@@ -237,7 +281,7 @@ def run(facts, rep, ctx):
         for (src, shv, truth) in key:
             if shv and "next" in shv:
                 cnt_ok += 1
-    if cnt_ok >= 3:
+    if cnt_ok >= 3 or (cnt_ok >= 2 and absent_by_resize):
         rep.ok(R1, {"reader_bit_tests": "flags & (1 << loop counter)"})
     else:
         rep.inconc(R1, "reader bit tests of the form `flags & (1 << loop counter)` not recognised")
